@@ -226,6 +226,7 @@ fn gen_stream_part(rng: &mut Rng, sc: &ThreadScenario, pal: &[u8], s: usize, all
         default_write: *rng.pick(&[WriteStep::All, WriteStep::Accept(1), WriteStep::Half]),
         faults,
         infallible_ctor: rng.chance(1, 10),
+        drive: 0,
     };
     StreamPart {
         s,
@@ -411,6 +412,80 @@ pub fn gen_race(seed: u64, idx: u64) -> ThreadScenario {
         sc.threads.push(ops);
     }
     sc
+}
+
+fn visit_src(src: &mut IterSrc, f: &mut dyn FnMut(&mut StreamPart)) {
+    if let IterSrc::Stream(p) = src {
+        f(p);
+    }
+}
+
+/// Calls `f` on every stream part of an operation.
+fn visit_parts(op: &mut Op, f: &mut dyn FnMut(&mut StreamPart)) {
+    match op {
+        Op::Stream(p) => f(p),
+        Op::Interleave2 { a, b } => {
+            visit_src(a, f);
+            visit_src(b, f);
+        }
+        Op::WithClone(inner) | Op::OrphanClone(inner) => visit_parts(inner, f),
+        Op::StartIter { src, .. } => visit_src(src, f),
+        _ => {}
+    }
+}
+
+/// Turns the scenario's text into valid UTF-8 with multi-byte characters: two bytes of the
+/// alphabet are replaced by a 2- and a 3-byte character everywhere (a homomorphism: planted
+/// occurrences stay occurrences), then some patterns lose a byte or two at either end so that
+/// they begin or end inside a code point. The `&str` entry points (which skip matches that
+/// split a code point) then see such matches.
+fn utf8ify(sc: &mut ThreadScenario, r: &mut Rng, pal: &[u8]) {
+    let a = pal[0];
+    let b = pal[1 % pal.len()];
+    let map = |v: &[u8]| -> Vec<u8> {
+        let mut out = Vec::with_capacity(v.len() * 2);
+        for &x in v {
+            if x == a {
+                out.extend_from_slice("\u{e9}".as_bytes());
+            } else if x == b {
+                out.extend_from_slice("\u{6f22}".as_bytes());
+            } else {
+                out.push(x);
+            }
+        }
+        out
+    };
+    for s in sc.searchers.iter_mut() {
+        if s.opts.case_insensitive {
+            continue;
+        }
+        for p in s.patterns.iter_mut() {
+            let mut q = map(p);
+            if q.len() > 1 && r.chance(1, 3) {
+                q.remove(0);
+            }
+            if q.len() > 1 && r.chance(1, 3) {
+                q.pop();
+            }
+            *p = q;
+        }
+    }
+    for h in sc.fixed_hays.iter_mut() {
+        *h = map(h);
+    }
+    for t in sc.threads.iter_mut() {
+        for op in t.iter_mut() {
+            let mut ss = Vec::new();
+            let mut hs = Vec::new();
+            crate::tmin::op_refs_mut(op, &mut ss, &mut hs);
+            for h in hs {
+                if let Hay::Buf { fill, .. } = h {
+                    *fill = map(fill);
+                }
+            }
+            visit_parts(op, &mut |p| p.sc.stream = map(&p.sc.stream));
+        }
+    }
 }
 
 pub fn gen_thread(class: &str, seed: u64, idx: u64) -> ThreadScenario {
@@ -686,6 +761,19 @@ pub fn gen_thread(class: &str, seed: u64, idx: u64) -> ThreadScenario {
                 fix(op);
             }
         }
+    }
+    if class != "miri" && r.chance(1, 6) {
+        // every stream operation of this scenario runs with the shipped capacity computation
+        // (the capacity hook hides whatever a tree under test does to that computation, e.g.
+        // sizing the buffer from an earlier search on the same searcher or thread)
+        for t in sc.threads.iter_mut() {
+            for op in t.iter_mut() {
+                visit_parts(op, &mut |p| p.sc.spare = None);
+            }
+        }
+    }
+    if class != "miri" && !long_patterns && !big_hay && !many_patterns && r.chance(1, 12) {
+        utf8ify(&mut sc, r, &pal);
     }
     // scheduling policy
     if r.chance(2, 5) {
